@@ -40,7 +40,7 @@ def check(ctx, src):
     # --- collect the if/elif chain on `value`
     chain = []
     first = next((st for st in cp.body if isinstance(st, ast.If) and "value" in norm(st.test) and "assignment" not in norm(st.test)), None)
-    ctx.require(first is not None, "compile_pattern: arm chain not found")
+    ctx.need(first is not None, "compile_pattern: arm chain not found")
     n = first
     while True:
         chain.append(n)
@@ -85,7 +85,7 @@ def check(ctx, src):
             ctx.check(reg is not None, "MATCH-BIND", f"{R}|compile_pattern|{name} registered", f"the name bound by the `{name}` arm is not passed to compiler.scope.assign (let / nonlocal tracking misses it)",
                       R, arm.lineno, witness="(let [x 1] (match v y (setv x y)))-style programs resolve the capture to the wrong variable", detail="scope.assign(…)")
     asg = pyq.contains(cp, lambda x: isinstance(x, ast.If) and norm(x.test) == "assignment is not None")
-    ctx.require(asg is not None, "compile_pattern: the :as arm was not found")
+    ctx.need(asg is not None, "compile_pattern: the :as arm was not found")
     reg = pyq.contains(asg.body, lambda x: isinstance(x, ast.Call) and dotted(x.func) == "compiler.scope.assign" and "asty.MatchAs" in norm(x))
     ctx.check(reg is not None, "MATCH-BIND", f"{R}|compile_pattern|:as registered", "the :as capture is not registered with the scope", R, asg.lineno, detail="scope.assign(MatchAs)")
     # parallel lists
@@ -102,14 +102,14 @@ def check(ctx, src):
     init = [st for st in m.body if isinstance(st, ast.AugAssign) and norm(st.target) == "ret" and isinstance(st.value, ast.Call) and dotted(st.value.func) == "asty.Assign"
             and "targets=[return_var]" in norm(st.value) and "asty.Constant(expr, value=None)" in norm(st.value)]
     mt = [st for st in m.body if isinstance(st, ast.AugAssign) and norm(st.target) == "ret" and isinstance(st.value, ast.Call) and dotted(st.value.func) == "asty.Match"]
-    ctx.require(len(mt) == 1, "compile_match_expression: the Match statement is not added at the top level of the function")
+    ctx.need(len(mt) == 1, "compile_match_expression: the Match statement is not added at the top level of the function")
     ctx.check(len(init) == 1 and m.body.index(init[0]) < m.body.index(mt[0]), "MATCH-RESULT", f"{R}|compile_match_expression|init-none",
               "the result variable is not set to None unconditionally before the Match (when no case matches, the form must return None)", R, m.lineno,
               witness="(match 5 None 1) raises NameError; (setv r 0) (setv r (match 5 None 1)) keeps 0", detail="ret += Assign(return_var, None) at top level before Match")
     subj = pyq.contains(mt[0], lambda x: isinstance(x, ast.keyword) and x.arg == "subject")
     ctx.check(subj is not None and norm(subj.value) == "subject.force_expr", "MATCH-RESULT", f"{R}|compile_match_expression|subject", "Match.subject is not the compiled subject", R, mt[0].lineno, detail="subject.force_expr")
     loop = next((st for st in m.body if isinstance(st, ast.For) and norm(st.iter) == "clauses"), None)
-    ctx.require(loop is not None, "compile_match_expression: clause loop not found")
+    ctx.need(loop is not None, "compile_match_expression: clause loop not found")
     ca = [st for st in loop.body if isinstance(st, ast.AugAssign) and norm(st.target) == "body" and "asty.Assign" in norm(st.value) and "targets=[return_var]" in norm(st.value)]
     ctx.check(len(ca) == 1 and "value=body.force_expr" in norm(ca[0].value), "MATCH-RESULT", f"{R}|compile_match_expression|case-assign",
               "a case body no longer ends by storing its value in the result variable (unconditionally, as a direct statement of the clause loop)", R, loop.lineno,
@@ -118,7 +118,7 @@ def check(ctx, src):
     ctx.check(len(lift) == 1 and m.body.index(lift[0]) < m.body.index(mt[0]), "MATCH-RESULT", f"{R}|compile_match_expression|guards-before-match",
               "lifted guard functions are not emitted before the Match statement", R, m.lineno, witness="(match x 1 :if (do (f) True) 2) -> NameError for the guard function", detail="before Match")
     g = pyq.contains(loop, lambda x: isinstance(x, ast.Call) and dotted(x.func) == "ast.match_case")
-    ctx.require(g is not None, "match_case construction not found")
+    ctx.need(g is not None, "match_case construction not found")
     kw = {k.arg: norm(k.value) for k in g.keywords}
     ctx.check(kw.get("pattern") == "pattern" and kw.get("body") == "body" and kw.get("guard") == "guard.force_expr if guard else None", "MATCH-RESULT", f"{R}|compile_match_expression|case-fields",
               f"match_case fields are {kw}", R, g.lineno, detail=str(kw))
